@@ -15,8 +15,13 @@ from spec.floats import *
 from spec.c02 import *
 
 
+_C05_CONTRACTS = ['RealFloat___neg__', 'RealFloat___pos__', 'RealFloat___abs__', 'RealFloat_from_int', 'RealFloat_from_float', 'RealFloat_zero', 'RealFloat_one', 'RealFloat_power_of_2', 'RealFloat_from_rational', 'RealFloat_as_rational', 'RealFloat_is_more_significant', 'RealFloat_is_integer', 'RealFloat_bit', 'RealFloat___int__', 'RealFloat_is_identical_to', 'RealFloat___add__', 'RealFloat___mul__', 'RealFloat___radd__', 'RealFloat___sub__', 'RealFloat___rsub__', 'RealFloat___rmul__', 'RealFloat___pow__', 'RealFloat_compare_mixed', 'RealFloat___eq__', 'RealFloat___lt__', 'RealFloat___le__', 'RealFloat___gt__', 'RealFloat___ge__', 'RealFloat___hash__', 'RealFloat_normalize', 'Float___neg__', 'Float___pos__', 'Float___abs__', 'Float_from_real', 'Float_from_int', 'Float_from_float', 'Float_from_rational', 'Float___int__', 'Float_as_rational', 'Float_is_zero', 'Float_is_positive', 'Float_is_negative', 'Float_is_integer', 'Float_is_finite', 'Float_is_nonzero', 'Float_is_nar', 'Float___add__', 'Float___mul__', 'Float___pow__', 'Float_compare', 'Float___eq__', 'Float___lt__', 'Float___le__', 'Float___gt__', 'Float___ge__', 'Float___hash__', 'Float_normalize_n', 'Float_normalize_p', 'Float_split', 'Float_same_value']
+
+
 class RealEngine_neg(Contract):
     target = 'fpy2.number.engine.real:RealEngine.neg'
+    # verified against the inlined bodies of the RealFloat/Float operators (as when written), not their C05 contracts
+    no_use = ['RealFloat___neg__', 'RealFloat___pos__', 'RealFloat___abs__', 'RealFloat_from_int', 'RealFloat_from_float', 'RealFloat_zero', 'RealFloat_one', 'RealFloat_power_of_2', 'RealFloat_from_rational', 'RealFloat_as_rational', 'RealFloat_is_more_significant', 'RealFloat_is_integer', 'RealFloat_bit', 'RealFloat___int__', 'RealFloat_is_identical_to', 'RealFloat___add__', 'RealFloat___mul__', 'RealFloat___radd__', 'RealFloat___sub__', 'RealFloat___rsub__', 'RealFloat___rmul__', 'RealFloat___pow__', 'RealFloat_compare_mixed', 'RealFloat___eq__', 'RealFloat___lt__', 'RealFloat___le__', 'RealFloat___gt__', 'RealFloat___ge__', 'RealFloat___hash__', 'RealFloat_normalize', 'Float___neg__', 'Float___pos__', 'Float___abs__', 'Float_from_real', 'Float_from_int', 'Float_from_float', 'Float_from_rational', 'Float___int__', 'Float_as_rational', 'Float_is_zero', 'Float_is_positive', 'Float_is_negative', 'Float_is_integer', 'Float_is_finite', 'Float_is_nonzero', 'Float_is_nar', 'Float___add__', 'Float___mul__', 'Float___pow__', 'Float_compare', 'Float___eq__', 'Float___lt__', 'Float___le__', 'Float___gt__', 'Float___ge__', 'Float___hash__', 'Float_normalize_n', 'Float_normalize_p', 'Float_split', 'Float_same_value']
     params = {'self': 'RealEngine', 'x': 'Float | Fraction', 'ctx': 'Context'}
     returns = 'Float | Fraction'
     properties = ['C02']
@@ -41,6 +46,8 @@ class RealEngine_neg(Contract):
 
 class RealEngine_fabs(Contract):
     target = 'fpy2.number.engine.real:RealEngine.fabs'
+    # verified against the inlined bodies of the RealFloat/Float operators (as when written), not their C05 contracts
+    no_use = ['RealFloat___neg__', 'RealFloat___pos__', 'RealFloat___abs__', 'RealFloat_from_int', 'RealFloat_from_float', 'RealFloat_zero', 'RealFloat_one', 'RealFloat_power_of_2', 'RealFloat_from_rational', 'RealFloat_as_rational', 'RealFloat_is_more_significant', 'RealFloat_is_integer', 'RealFloat_bit', 'RealFloat___int__', 'RealFloat_is_identical_to', 'RealFloat___add__', 'RealFloat___mul__', 'RealFloat___radd__', 'RealFloat___sub__', 'RealFloat___rsub__', 'RealFloat___rmul__', 'RealFloat___pow__', 'RealFloat_compare_mixed', 'RealFloat___eq__', 'RealFloat___lt__', 'RealFloat___le__', 'RealFloat___gt__', 'RealFloat___ge__', 'RealFloat___hash__', 'RealFloat_normalize', 'Float___neg__', 'Float___pos__', 'Float___abs__', 'Float_from_real', 'Float_from_int', 'Float_from_float', 'Float_from_rational', 'Float___int__', 'Float_as_rational', 'Float_is_zero', 'Float_is_positive', 'Float_is_negative', 'Float_is_integer', 'Float_is_finite', 'Float_is_nonzero', 'Float_is_nar', 'Float___add__', 'Float___mul__', 'Float___pow__', 'Float_compare', 'Float___eq__', 'Float___lt__', 'Float___le__', 'Float___gt__', 'Float___ge__', 'Float___hash__', 'Float_normalize_n', 'Float_normalize_p', 'Float_split', 'Float_same_value']
     params = {'self': 'RealEngine', 'x': 'Float | Fraction', 'ctx': 'Context'}
     returns = 'Float | Fraction'
     properties = ['C02']
@@ -65,6 +72,8 @@ class RealEngine_fabs(Contract):
 
 class RealEngine_copysign(Contract):
     target = 'fpy2.number.engine.real:RealEngine.copysign'
+    # verified against the inlined bodies of the RealFloat/Float operators (as when written), not their C05 contracts
+    no_use = ['RealFloat___neg__', 'RealFloat___pos__', 'RealFloat___abs__', 'RealFloat_from_int', 'RealFloat_from_float', 'RealFloat_zero', 'RealFloat_one', 'RealFloat_power_of_2', 'RealFloat_from_rational', 'RealFloat_as_rational', 'RealFloat_is_more_significant', 'RealFloat_is_integer', 'RealFloat_bit', 'RealFloat___int__', 'RealFloat_is_identical_to', 'RealFloat___add__', 'RealFloat___mul__', 'RealFloat___radd__', 'RealFloat___sub__', 'RealFloat___rsub__', 'RealFloat___rmul__', 'RealFloat___pow__', 'RealFloat_compare_mixed', 'RealFloat___eq__', 'RealFloat___lt__', 'RealFloat___le__', 'RealFloat___gt__', 'RealFloat___ge__', 'RealFloat___hash__', 'RealFloat_normalize', 'Float___neg__', 'Float___pos__', 'Float___abs__', 'Float_from_real', 'Float_from_int', 'Float_from_float', 'Float_from_rational', 'Float___int__', 'Float_as_rational', 'Float_is_zero', 'Float_is_positive', 'Float_is_negative', 'Float_is_integer', 'Float_is_finite', 'Float_is_nonzero', 'Float_is_nar', 'Float___add__', 'Float___mul__', 'Float___pow__', 'Float_compare', 'Float___eq__', 'Float___lt__', 'Float___le__', 'Float___gt__', 'Float___ge__', 'Float___hash__', 'Float_normalize_n', 'Float_normalize_p', 'Float_split', 'Float_same_value']
     params = {'self': 'RealEngine', 'x': 'Float | Fraction', 'y': 'Float | Fraction', 'ctx': 'Context'}
     returns = 'Float | Fraction'
     properties = ['C02']
@@ -94,6 +103,8 @@ class RealEngine_copysign(Contract):
 
 class RealEngine_add(Contract):
     target = 'fpy2.number.engine.real:RealEngine.add'
+    # verified against the inlined bodies of the RealFloat/Float operators (as when written), not their C05 contracts
+    no_use = ['RealFloat___neg__', 'RealFloat___pos__', 'RealFloat___abs__', 'RealFloat_from_int', 'RealFloat_from_float', 'RealFloat_zero', 'RealFloat_one', 'RealFloat_power_of_2', 'RealFloat_from_rational', 'RealFloat_as_rational', 'RealFloat_is_more_significant', 'RealFloat_is_integer', 'RealFloat_bit', 'RealFloat___int__', 'RealFloat_is_identical_to', 'RealFloat___add__', 'RealFloat___mul__', 'RealFloat___radd__', 'RealFloat___sub__', 'RealFloat___rsub__', 'RealFloat___rmul__', 'RealFloat___pow__', 'RealFloat_compare_mixed', 'RealFloat___eq__', 'RealFloat___lt__', 'RealFloat___le__', 'RealFloat___gt__', 'RealFloat___ge__', 'RealFloat___hash__', 'RealFloat_normalize', 'Float___neg__', 'Float___pos__', 'Float___abs__', 'Float_from_real', 'Float_from_int', 'Float_from_float', 'Float_from_rational', 'Float___int__', 'Float_as_rational', 'Float_is_zero', 'Float_is_positive', 'Float_is_negative', 'Float_is_integer', 'Float_is_finite', 'Float_is_nonzero', 'Float_is_nar', 'Float___add__', 'Float___mul__', 'Float___pow__', 'Float_compare', 'Float___eq__', 'Float___lt__', 'Float___le__', 'Float___gt__', 'Float___ge__', 'Float___hash__', 'Float_normalize_n', 'Float_normalize_p', 'Float_split', 'Float_same_value']
     params = {'self': 'RealEngine', 'x': 'Float | Fraction', 'y': 'Float | Fraction', 'ctx': 'Context'}
     returns = 'Float | Fraction'
     properties = ['C02']
@@ -142,6 +153,8 @@ class RealEngine_add(Contract):
 
 class RealEngine_mul(Contract):
     target = 'fpy2.number.engine.real:RealEngine.mul'
+    # verified against the inlined bodies of the RealFloat/Float operators (as when written), not their C05 contracts
+    no_use = ['RealFloat___neg__', 'RealFloat___pos__', 'RealFloat___abs__', 'RealFloat_from_int', 'RealFloat_from_float', 'RealFloat_zero', 'RealFloat_one', 'RealFloat_power_of_2', 'RealFloat_from_rational', 'RealFloat_as_rational', 'RealFloat_is_more_significant', 'RealFloat_is_integer', 'RealFloat_bit', 'RealFloat___int__', 'RealFloat_is_identical_to', 'RealFloat___add__', 'RealFloat___mul__', 'RealFloat___radd__', 'RealFloat___sub__', 'RealFloat___rsub__', 'RealFloat___rmul__', 'RealFloat___pow__', 'RealFloat_compare_mixed', 'RealFloat___eq__', 'RealFloat___lt__', 'RealFloat___le__', 'RealFloat___gt__', 'RealFloat___ge__', 'RealFloat___hash__', 'RealFloat_normalize', 'Float___neg__', 'Float___pos__', 'Float___abs__', 'Float_from_real', 'Float_from_int', 'Float_from_float', 'Float_from_rational', 'Float___int__', 'Float_as_rational', 'Float_is_zero', 'Float_is_positive', 'Float_is_negative', 'Float_is_integer', 'Float_is_finite', 'Float_is_nonzero', 'Float_is_nar', 'Float___add__', 'Float___mul__', 'Float___pow__', 'Float_compare', 'Float___eq__', 'Float___lt__', 'Float___le__', 'Float___gt__', 'Float___ge__', 'Float___hash__', 'Float_normalize_n', 'Float_normalize_p', 'Float_split', 'Float_same_value']
     params = {'self': 'RealEngine', 'x': 'Float | Fraction', 'y': 'Float | Fraction', 'ctx': 'Context'}
     returns = 'Float | Fraction'
     properties = ['C02']
@@ -181,6 +194,8 @@ class RealEngine_mul(Contract):
 
 class RealEngine_sub(Contract):
     target = 'fpy2.number.engine.real:RealEngine.sub'
+    # verified against the inlined bodies of the RealFloat/Float operators (as when written), not their C05 contracts
+    no_use = ['RealFloat___neg__', 'RealFloat___pos__', 'RealFloat___abs__', 'RealFloat_from_int', 'RealFloat_from_float', 'RealFloat_zero', 'RealFloat_one', 'RealFloat_power_of_2', 'RealFloat_from_rational', 'RealFloat_as_rational', 'RealFloat_is_more_significant', 'RealFloat_is_integer', 'RealFloat_bit', 'RealFloat___int__', 'RealFloat_is_identical_to', 'RealFloat___add__', 'RealFloat___mul__', 'RealFloat___radd__', 'RealFloat___sub__', 'RealFloat___rsub__', 'RealFloat___rmul__', 'RealFloat___pow__', 'RealFloat_compare_mixed', 'RealFloat___eq__', 'RealFloat___lt__', 'RealFloat___le__', 'RealFloat___gt__', 'RealFloat___ge__', 'RealFloat___hash__', 'RealFloat_normalize', 'Float___neg__', 'Float___pos__', 'Float___abs__', 'Float_from_real', 'Float_from_int', 'Float_from_float', 'Float_from_rational', 'Float___int__', 'Float_as_rational', 'Float_is_zero', 'Float_is_positive', 'Float_is_negative', 'Float_is_integer', 'Float_is_finite', 'Float_is_nonzero', 'Float_is_nar', 'Float___add__', 'Float___mul__', 'Float___pow__', 'Float_compare', 'Float___eq__', 'Float___lt__', 'Float___le__', 'Float___gt__', 'Float___ge__', 'Float___hash__', 'Float_normalize_n', 'Float_normalize_p', 'Float_split', 'Float_same_value']
     params = {'self': 'RealEngine', 'x': 'Float | Fraction', 'y': 'Float | Fraction', 'ctx': 'Context'}
     returns = 'Float | Fraction'
     properties = ['C02']
